@@ -132,6 +132,21 @@ CHECKS = {
         ],
         "trusted_extra": ["verif hook package veriftest; hook Transcoder.VerifTables / VerifRouteMatch"],
     },
+    "C07": {
+        "module": "Vanguard.Props.C07", "namespace": "Vanguard.C07", "streams": ["rest", "schema"],
+        "partial": "proved: single-segment variables survive the URL for every byte string, multi-segment values are reassembled exactly, "
+                   "ill-typed parameter texts are invalid_argument (null included), setParameter's overwrite/append semantics; NOT proved: "
+                   "the whole round trip restDecode(restEncode m) = m (evaluated on every generated case by model and implementation), the "
+                   "scalar text codecs and the JSON body codec (outside the model: protojson, strconv, base64); response_body / HttpBody "
+                   "responses are covered by the schema stream's metamorphic traffic only; kinds modelled: string, int32, int64, bool, "
+                   "nested and repeated fields (no enums, floats, bytes, wrappers, Timestamp/Duration/FieldMask in the exact comparison)",
+        "assumptions": [
+            "net/url's parsing of the request target and of the query string is an input of the model (the harness passes the parsed query)",
+            "messages are compared as lists of populated scalar leaves; presence of an empty sub-message is not compared",
+        ],
+        "trusted_extra": ["verif hooks Transcoder.VerifRESTEncode / VerifRESTDecode (thin wrappers around requestLine, prepareMarshalledRequest, "
+                          "route match and prepareUnmarshalledRequest)"],
+    },
     "C18": {
         "module": "Vanguard.Props.C18", "namespace": "Vanguard.C18", "streams": ["e2e"],
         "partial": "no I/O after return is observed by the harness (vanguard starts no goroutine), not modelled",
